@@ -434,11 +434,19 @@ func genC16(t *rapid.T) c16Case {
 		if rapid.IntRange(0, 3).Draw(t, "huge") == 0 { // transaction count needs a 3-byte CompactSize
 			n = rapid.IntRange(250, 260).Draw(t, "nhuge")
 		}
+		if rapid.IntRange(0, 3).Draw(t, "wordsized") == 0 { // counts on and around machine-word multiples (bitmaps, slabs)
+			n = rapid.SampledFrom([]int{31, 32, 33, 63, 64, 65, 127, 128, 129, 192, 256}).Draw(t, "nword")
+		}
 	default:
 		n = rapid.IntRange(1, 8).Draw(t, "n")
 	}
 	withTokens := rapid.Bool().Draw(t, "tokens")
+	bare := rapid.IntRange(0, 7).Draw(t, "bare") == 0 // a block of the smallest transactions there are (no inputs, no outputs: 10 bytes each)
 	for i := 0; i < n; i++ {
+		if bare {
+			c.Txs = append(c.Txs, c16TxSpec{})
+			continue
+		}
 		s := c16TxSpec{NIn: rapid.IntRange(1, 4).Draw(t, "nin"), NOut: rapid.IntRange(1, 4).Draw(t, "nout"),
 			ScriptLen: rapid.IntRange(0, 80).Draw(t, "slen"), Salt: rapid.IntRange(0, 250).Draw(t, "salt")}
 		if withTokens && rapid.Bool().Draw(t, "tok") {
